@@ -197,11 +197,26 @@ type gen struct {
 	db    *metadb.DB
 	now   int64
 	theme string // command family drawn far more often in this log ("" = none)
+	// echo: now and then the next command repeats the previous command's type on the same
+	// hash slot / user / channel with other values (create-twice, upsert-twice, ... pairs that
+	// must compose inside one write batch exactly as they do one at a time)
+	echo                       bool
+	lastGen                    int
+	lastHS                     uint16
+	lastUID, lastGroup, lastPC string
 }
 
 func (g *gen) tick() int64 { g.now += 1000; return g.now }
 func (g *gen) n(k int) int { return g.rng.Intn(k) }
 func (g *gen) hs() uint16 {
+	if g.echo && g.lastHS != 0 && g.n(10) < 8 {
+		return g.lastHS
+	}
+	g.lastHS = g.drawHS()
+	return g.lastHS
+}
+
+func (g *gen) drawHS() uint16 {
 	if g.theme == "hsmig" && g.n(10) < 7 {
 		return 3 // the hash slot the fence / outbox commands of this family address
 	}
@@ -218,10 +233,14 @@ func (g *gen) hs() uint16 {
 	}
 }
 func (g *gen) uid() string {
-	if g.theme != "" && g.n(10) < 5 {
-		return "u1"
+	if g.echo && g.lastUID != "" && g.n(10) < 8 {
+		return g.lastUID
 	}
-	return []string{"u1", "u2", "u3"}[g.n(3)]
+	g.lastUID = []string{"u1", "u2", "u3"}[g.n(3)]
+	if g.theme != "" && g.n(10) < 5 {
+		g.lastUID = "u1"
+	}
+	return g.lastUID
 }
 func (g *gen) uids() []string {
 	all := []string{"u1", "u2", "u3", "u4"}
@@ -229,10 +248,14 @@ func (g *gen) uids() []string {
 	return all[:1+g.n(3)]
 }
 func (g *gen) group() string {
-	if g.theme != "" && g.n(10) < 5 {
-		return "ga"
+	if g.echo && g.lastGroup != "" && g.n(10) < 8 {
+		return g.lastGroup
 	}
-	return []string{"ga", "gb"}[g.n(2)]
+	g.lastGroup = []string{"ga", "gb"}[g.n(2)]
+	if g.theme != "" && g.n(10) < 5 {
+		g.lastGroup = "ga"
+	}
+	return g.lastGroup
 }
 func (g *gen) person() string { return channelid.EncodePersonChannel("u1", []string{"u2", "u3"}[g.n(2)]) }
 func (g *gen) tok() string    { return fmt.Sprintf("t%d", g.n(4)) }
@@ -620,11 +643,20 @@ func (g *gen) valid() cmdRec {
 	for i := range generators {
 		total += g.weight(i)
 	}
+	if g.lastGen > 0 && g.n(100) < 15 {
+		g.echo = true
+		hs, data, desc := generators[g.lastGen-1].fn(g)
+		g.echo = false
+		if data != nil {
+			return cmdRec{HashSlot: hs, Data: data, Desc: desc}
+		}
+	}
 	for {
 		r := g.n(total)
 		for i, w := range generators {
 			if r < g.weight(i) {
 				if hs, data, desc := w.fn(g); data != nil {
+					g.lastGen = i + 1
 					return cmdRec{HashSlot: hs, Data: data, Desc: desc}
 				}
 				break
